@@ -9,39 +9,60 @@ from vf.coqlit import cbool
 from vf.factlib import GEN, HEADER, Unsupported, write_if_changed
 
 
-def _guard_compares_desc(packer_mod):
-    """Shape of the writer's registration guard in RecordPacker.pack_obj:
-       `X.identifier not in self.descriptors`                       -> False (identifier only)
-       `self.descriptors.get(X.identifier) != X`  (or `is not`)     -> True  (compares the descriptor)
-    All guards in pack_obj must have the same shape."""
-    src = textwrap.dedent(inspect.getsource(packer_mod.RecordPacker.pack_obj))
-    fn = ast.parse(src).body[0]
-    kinds = set()
-    for node in ast.walk(fn):
-        if not isinstance(node, ast.If):
-            continue
-        calls_register = any(isinstance(b, ast.Expr) and isinstance(b.value, ast.Call) and isinstance(b.value.func, ast.Attribute)
-                             and b.value.func.attr == "register" for b in node.body)
-        if not calls_register:
-            continue
-        t = node.test
-        if isinstance(t, ast.Compare) and len(t.ops) == 1:
-            op = t.ops[0]
-            if isinstance(op, ast.NotIn) and isinstance(t.left, ast.Attribute) and t.left.attr == "identifier" \
-                    and isinstance(t.comparators[0], ast.Attribute) and t.comparators[0].attr == "descriptors":
-                kinds.add(False)
-                continue
-            if isinstance(op, (ast.NotEq, ast.IsNot)) and isinstance(t.left, ast.Call) \
-                    and isinstance(t.left.func, ast.Attribute) and t.left.func.attr == "get" \
-                    and isinstance(t.left.func.value, ast.Attribute) and t.left.func.value.attr == "descriptors" \
-                    and len(t.left.args) == 1 and isinstance(t.left.args[0], ast.Attribute) and t.left.args[0].attr == "identifier" \
-                    and ast.dump(t.left.args[0].value) == ast.dump(t.comparators[0]):
-                kinds.add(True)
-                continue
-        raise Unsupported("unrecognised registration guard in RecordPacker.pack_obj (line %d)" % node.lineno)
-    if len(kinds) != 1:
-        raise Unsupported("RecordPacker.pack_obj: %d registration guards of differing shapes" % len(kinds))
-    return kinds.pop()
+def _guard_compares_desc(packer_mod, base):
+    """What decides whether the writer announces a record's descriptor (RecordPacker.pack_obj -> register(desc, True)):
+       True   the descriptor registered under the record's identifier is compared with the record's own descriptor
+              (a different descriptor that shares the identifier is announced again)
+       False  only the identifier is looked up (a different descriptor with a known identifier is NOT announced)
+    Determined BEHAVIOURALLY on descriptors built for the purpose (so that a re-spelling or an extracted helper does not
+    matter): packing, on one packer, records of two descriptors whose identifiers coincide, of one descriptor twice, and
+    of same-named descriptors with different identifiers - as plain records, as group members and nested in a record
+    field.  All three positions must agree, and the other announcements must be exactly "first use of a definition";
+    anything else is Unsupported."""
+    RD, GR = base.RecordDescriptor, base.GroupedRecord
+    c1 = RD("fact/c", [("stringlist", "a"), ("string", "b")])
+    c2 = RD("fact/c", [("string", "a"), ("string", "listb")])
+    a1 = RD("fact/a", [("string", "s"), ("varint", "n")])
+    a2 = RD("fact/a", [("string", "s")])
+    hold = RD("fact/h", [("record", "r")])
+    if c1.identifier != c2.identifier or a1.identifier == a2.identifier:
+        raise Unsupported("the probe descriptors do not have the identifier relation the probe needs")
+
+    def announced(items):
+        p = packer_mod.RecordPacker()
+        seen = []
+        p.on_descriptor.add_handler(lambda d: seen.append((d.name, tuple(d.get_field_tuples()))))
+        per_item = []
+        for it in items:
+            before = len(seen)
+            p.pack(it)
+            per_item.append(seen[before:])
+        return per_item
+
+    key = lambda d: (d.name, tuple(d.get_field_tuples()))  # noqa: E731
+    verdicts = []
+    for wrap in ("plain", "group", "nested"):
+        def mk(d, wrap=wrap):
+            r = d()
+            if wrap == "group":
+                return GR("fact/g", [r])
+            if wrap == "nested":
+                return hold(r=r)
+            return r
+        per = announced([mk(c1), mk(c2), mk(c1), mk(a1), mk(a1), mk(a2), mk(a1)])
+        strip = [[x for x in got if x[0] not in ("fact/h",)] for got in per]
+        # first uses are always announced; a repeated definition is never announced again while it is the registered one
+        if strip[0] != [key(c1)] or strip[3] != [key(a1)] or strip[4] != [] or strip[5] != [key(a2)] or strip[6] != []:
+            raise Unsupported("RecordPacker announces descriptors in an unrecognised pattern (%s records): %r" % (wrap, strip))
+        if strip[1] == [key(c2)] and strip[2] == [key(c1)]:
+            verdicts.append(True)
+        elif strip[1] == [] and strip[2] == []:
+            verdicts.append(False)
+        else:
+            raise Unsupported("RecordPacker: unrecognised announcements for identifier-coincident descriptors (%s records): %r" % (wrap, strip[:3]))
+    if len(set(verdicts)) != 1:
+        raise Unsupported("RecordPacker: plain records, group members and nested records are announced by different rules: %r" % verdicts)
+    return verdicts[0]
 
 
 def _desc_eq_is_structural(base):
@@ -159,7 +180,7 @@ def _pack_is_config_free(base, packer_mod):
 def gen_packer():
     import flow.record.base as base
     import flow.record.packer as packer
-    guard = _guard_compares_desc(packer) and _desc_eq_is_structural(base)
+    guard = _guard_compares_desc(packer, base) and _desc_eq_is_structural(base)
     order = _hash_input_shape(base)
     out = HEADER
     out += "From Coq Require Import List Bool NArith ZArith String.\nFrom Coq Require Import Init.Byte.\n"
